@@ -1047,6 +1047,7 @@ type c14CloseCell struct {
 	PW    int    `json:"pw"` // admin position at which the client write is issued and acknowledged
 	PA    int    `json:"pa"` // admin position (>= PW) at which Close is invoked
 	Op    string `json:"op"`
+	Pre   bool   `json:"pre,omitempty"` // a completed snapshot (log truncated) precedes the scenario, so the log alone no longer holds the fixture
 }
 
 func c14CloseAllCells() []c14CloseCell {
@@ -1056,6 +1057,7 @@ func c14CloseAllCells() []c14CloseCell {
 			for pw := 1; pw <= pa; pw++ {
 				for _, op := range c14OverlapOps {
 					out = append(out, c14CloseCell{Admin: a, PW: pw, PA: pa, Op: op})
+					out = append(out, c14CloseCell{Admin: a, PW: pw, PA: pa, Op: op, Pre: true})
 				}
 			}
 		}
@@ -1099,6 +1101,11 @@ func c14CloseRun(c c14CloseCell) (msg string, labels []string) {
 	} {
 		if err != nil {
 			return "harness: fixture: " + err.Error(), nil
+		}
+	}
+	if c.Pre {
+		if err := e.SaveSnapshot(); err != nil {
+			return "harness: fixture snapshot: " + err.Error(), nil
 		}
 	}
 	points := c14OrderPoints[c.Admin]
@@ -1261,7 +1268,7 @@ func c14CloseRun(c c14CloseCell) (msg string, labels []string) {
 
 func TestVerif_C14_closeduring(t *testing.T) {
 	col := verifkit.New("C14", "closeduring",
-		"ENUMERATION: admin operation (SaveSnapshot, RewriteAOF) advanced phase by phase: a client write (kvset vadd vdel vmeta glink vbatch) is acknowledged at phase PW, Close is invoked at a later-or-equal phase PA while the admin operation is parked there, then the admin operation is released and runs into the closed engine = 252 cells; oracle = nothing panics or hangs, Open succeeds, full API-visible state read before Close equals the state after Open; non-trivial = the client write was acknowledged while the admin operation was parked")
+		"ENUMERATION: admin operation (SaveSnapshot, RewriteAOF) advanced phase by phase: a client write (kvset vadd vdel vmeta glink vbatch) is acknowledged at phase PW, Close is invoked at a later-or-equal phase PA while the admin operation is parked there, then the admin operation is released and runs into the closed engine, each with and without a completed snapshot before the scenario = 504 cells; oracle = nothing panics or hangs, Open succeeds, full API-visible state read before Close equals the state after Open; non-trivial = the client write was acknowledged while the admin operation was parked")
 	defer col.Finish()
 	if rp := verifkit.ReplayPath(); rp != "" {
 		if verifkit.ReplayPart(rp) != "closeduring" {
